@@ -101,6 +101,13 @@ func (c *c08ctx) snapshotBlocks() map[int]string {
 // signedHostileEvent builds an event on the Byzantine validator's chain as the
 // victim knows it, with hostile payload, properly signed.
 func (c *c08ctx) signedHostileEvent() (hg.WireEvent, bool) {
+	return c.signedHostileEventOpt(false)
+}
+
+// signedHostileEventOpt: with fork set, the event does not extend the
+// Byzantine validator's last event but an older one (an equivocation, which
+// the victim must refuse without harm) and claims a hostile index.
+func (c *c08ctx) signedHostileEventOpt(fork bool) (hg.WireEvent, bool) {
 	v := c.victim
 	st := v.Core.Hg().Store
 	bp := c.byz.peer()
@@ -112,6 +119,20 @@ func (c *c08ctx) signedHostileEvent() (hg.WireEvent, bool) {
 			sp = last
 			spIdx = ev.Index()
 		}
+	}
+	claimed := spIdx + 1
+	if fork {
+		if spIdx < 1 {
+			return hg.WireEvent{}, false
+		}
+		older := c.gen.rng.Intn(spIdx) // an index strictly below the last one
+		evs, err := st.ParticipantEvents(bp.PubKeyString(), older-1)
+		if err != nil || len(evs) == 0 {
+			return hg.WireEvent{}, false
+		}
+		sp, spIdx = evs[0], older
+		claimed = []int{older + 1, 1 << 30, 1<<31 - 1, spIdx + 2, -1, older}[c.gen.rng.Intn(6)]
+		c.res.count("hostile_forked_events_of_a_byzantine_validator", 1)
 	}
 	// other parent: victim's own last event
 	op := ""
@@ -136,7 +157,7 @@ func (c *c08ctx) signedHostileEvent() (hg.WireEvent, bool) {
 		itx.Sign(k)
 		itxs = append(itxs, itx)
 	}
-	ev := hg.NewEvent(g.txs(), itxs, sigs, []string{sp, op}, keysPub(c.byz.Key), spIdx+1)
+	ev := hg.NewEvent(g.txs(), itxs, sigs, []string{sp, op}, keysPub(c.byz.Key), claimed)
 	ev.Body.Timestamp = int64(g.num())
 	if err := ev.Sign(c.byz.Key); err != nil {
 		return hg.WireEvent{}, false
@@ -148,7 +169,7 @@ func (c *c08ctx) signedHostileEvent() (hg.WireEvent, bool) {
 		w.Body.BlockSignatures = append(w.Body.BlockSignatures, bs.ToWire())
 	}
 	w.Body.CreatorID = c.byz.ID
-	w.Body.Index = spIdx + 1
+	w.Body.Index = claimed
 	w.Body.SelfParentIndex = spIdx
 	w.Body.OtherParentCreatorID = opCreator
 	w.Body.OtherParentIndex = opIdx
@@ -324,7 +345,7 @@ func runC08(cs CaseSpec) *CaseResult {
 			var cmd interface{}
 			switch {
 			case i%5 == 4:
-				if w, good := c.signedHostileEvent(); good {
+				if w, good := c.signedHostileEventOpt(i%15 == 9); good {
 					evs := []hg.WireEvent{w}
 					if rng.Intn(3) == 0 {
 						evs = append(evs, g.wireEvent())
@@ -436,12 +457,16 @@ func (c *c08ctx) runResponses(msgs int) bool {
 		c.res.Evaluations++
 		if i%3 != 2 {
 			evs := g.wireEvents()
+			fromID := g.id()
 			if i%4 == 1 {
-				if w, good := c.signedHostileEvent(); good {
+				if w, good := c.signedHostileEventOpt(i%8 == 5); good {
 					evs = append([]hg.WireEvent{w}, evs...)
+					if i%8 == 5 {
+						fromID = byz.ID // the response really comes from the equivocating validator
+					}
 				}
 			}
-			resp := &bnet.SyncResponse{FromID: g.id(), Events: evs, Known: g.known()}
+			resp := &bnet.SyncResponse{FromID: fromID, Events: evs, Known: g.known()}
 			next = resp
 			desc := describeCmd("SyncResponse", resp)
 			c.note(desc)
